@@ -13,7 +13,8 @@ def run_seed(name, prop=None, repo='/repo'):
     d = os.path.join(VERIF, 'seeded', name)
     meta = json.load(open(os.path.join(d, 'meta.json')))
     want = [p for p in meta.get('caught_by', []) if prop is None or p == prop]
-    if not want:
+    und = [p for p in meta.get('undecided_by', []) if (prop is None or p == prop) and p not in want] if not meta.get('caught_by') else []
+    if not want and not und:
         return name, True, 'nothing expected'
     tmp = tempfile.mkdtemp(prefix='sd.', dir='/var/tmp')
     try:
@@ -27,7 +28,13 @@ def run_seed(name, prop=None, repo='/repo'):
             q = subprocess.run([PY, os.path.join(VERIF, 'check'), pid, '--repo', tmp, '--no-evidence'], capture_output=True, text=True, timeout=900)
             if q.returncode != 1:
                 bad.append('%s exit %d' % (pid, q.returncode))
-        return name, not bad, ', '.join(bad) or 'caught by ' + ','.join(want)
+        # a change no check decides must at least stay undecided for the property it was seeded under (never a silent pass)
+        und = [p for p in und if p == meta.get('property')] or und[:1]
+        for pid in und:
+            q = subprocess.run([PY, os.path.join(VERIF, 'check'), pid, '--repo', tmp, '--no-evidence'], capture_output=True, text=True, timeout=900)
+            if q.returncode == 0:
+                bad.append('%s exit 0 (recorded as undecided: the check now passes silently)' % pid)
+        return name, not bad, ', '.join(bad) or ('caught by ' + ','.join(want) if want else 'still undecided by ' + ','.join(und))
     finally:
         shutil.rmtree(tmp, ignore_errors=True)
 
